@@ -21,6 +21,7 @@
     X(unsigned char, pp_ok, [VF_NPCALL]) X(unsigned char, pp_len, [VF_NPCALL]) X(unsigned char, pp_adv, [VF_NPCALL]) X(unsigned char, pp_txt, [VF_NPCALL][VF_PLEN]) \
     X(unsigned char, g_text, [2][26]) X(double, g_val, ) X(double, strtod_val, ) X(unsigned char, dp, )
 #include "vf.h"
+#include "vf_str.h"
 #define VF_MODEL_PRINTF
 #define VF_MAXDIGITS 2
 #include "vf_libc.h"
